@@ -187,3 +187,5 @@ Print Assumptions C19_real_tolerance_floor.
 Print Assumptions C19_real_tolerance_counts.
 Print Assumptions C19_check_case_sound.
 Print Assumptions C19_check_case_sound_exc.
+From CPL Require Import gen.GenFuns_C19 GenProps.GenFunsEquivC19 GenProps.C19Src. (* source tie: gen/GenFuns_C19.v is regenerated from apen.py on every run *)
+Theorem C19_source_tie : (forall x y : list Z, src_apen_maximum_distance x y = match combine x y with nil => Raise ValueError | _ => Ok (max_dist x y) end) /\ (forall (U : list Z) (m : nat), src_apen_windows U (Z.of_nat (length U)) (Z.of_nat m) = Ok (xwindows m U)) /\ (forall (xs : list (list Z)) (xi : list Z) (r : Z), Forall (fun xj => combine xi xj <> nil) xs -> src_apen_count xs xi r = Ok (Z.of_nat (match_count r xs xi))). Proof. exact C19_source_translation_agrees. Qed. Print Assumptions C19_source_tie.
